@@ -109,6 +109,13 @@ CLAIMED = {
             "polynomials' range is sampled densely (4400 masses per row), not bounded in Lean (partial).",
             "FITPACK/Polynomial float evaluation trusted to 1e-12 (cond-aware); WD polynomial bounds measured.",
             "DESIGN §6 C09"),
+    "C20": ("Lean 4 proof (moment helpers extracted from the source = ∫x^(-a), ∫x·x^(-a) for every exponent incl. 1 and 2; continuity "
+            "constants; Σ piece probabilities = 1; inverse-CDF sampler stays inside its piece for every slope incl. 1) + correspondence "
+            "of helpers, constants, normalisation and evaluation",
+            "Theorem C20_partial is stated on Generated.kroupa_mom0/mom1/getmass (the source's expressions, special-case literals "
+            "included). integral() over several pieces and sampling are checked against Gauss–Legendre on the real class (partial).",
+            "Piece-selection loop of integral() not proved; np.random trusted.",
+            "DESIGN §6 C20"),
 }
 
 NOT_YET = "check not built yet in this session (planned: see DESIGN §6); not claimed until its quick check is silent on the clean tree"
